@@ -152,6 +152,7 @@ def c20(tier, seed):
         jobs.append(Job("ini-%02d" % i, H, ["ini", 4 + X, i, n], wraps=W, weight=10 if X else 3))
     for i in range(4):
         jobs.append(Job("inifile-%d" % i, H, ["inifile", i, 4], wraps=W, weight=3))
+    jobs.append(Job("inilong", H, ["inilong"], wraps=W, weight=1))
     for p in range(3):
         jobs.append(Job("actype-%d" % p, H, ["actype", p], wraps=W, weight=4))
     for i in range(4):
